@@ -45,12 +45,11 @@ pub trait ChainStore: Send + Sync + Sized {
         }
         let header = self.get_block_header(h)?;
         let body = self.get_block_body(h);
-        let uncles = self
-            .get_block_uncles(h)
-            .expect("block uncles must be stored");
-        let proposals = self
-            .get_block_proposal_txs_ids(h)
-            .expect("block proposal_ids must be stored");
+        // A block that fails verification is deleted by another thread (one transaction), while the
+        // parts are read here one by one, possibly some of them from the shared read caches: a block
+        // of which a part is missing has been deleted.
+        let uncles = self.get_block_uncles(h)?;
+        let proposals = self.get_block_proposal_txs_ids(h)?;
         let extension_opt = self.get_block_extension(h);
 
         let block = if let Some(extension) = extension_opt {
